@@ -407,5 +407,6 @@ func main() {
 	}
 	run.Set("hostile_strings", hostile)
 	run.Sample(map[string]interface{}{"hostile": []string{"", "   ", "tc", "tcp -h"}})
+	managerRoute(rng)
 	run.Finish()
 }
